@@ -8,16 +8,6 @@ import O2P.Lemmas.InferOrAll
 import O2P.Lemmas.PostFlat
 namespace O2P.Gate
 
-/-- two lists related position by position (core Lean has no `Rel2`) -/
-inductive Rel2 {α β : Type} (R : α → β → Prop) : List α → List β → Prop where
-  | nil : Rel2 R [] []
-  | cons {a b as bs} : R a b → Rel2 R as bs → Rel2 R (a :: as) (b :: bs)
-
-theorem Rel2.imp {α β : Type} {R S : α → β → Prop} (h : ∀ {a b}, R a b → S a b) :
-    ∀ {as : List α} {bs : List β}, Rel2 R as bs → Rel2 S as bs
-  | _, _, .nil => .nil
-  | _, _, .cons r rs => .cons (h r) (Rel2.imp h rs)
-
 section congrRel
 variable (F : List (List String)) (s : List String) (L : List String)
   (hemp : "" ∉ s) (hproj : s = [] ∨ ∃ s0 ∈ F, ∀ x ∈ L, (x ∈ s0 ↔ x ∈ s))
@@ -142,7 +132,7 @@ theorem node_congr_rel (F : List (List String)) (hF : ∀ s0 ∈ F, "" ∉ s0) (
       exact ⟨ps, semSome_rel F s (PTree.labelsL cs) hemp hproj cs cs' ps hg (fun _ hx => hx) hnd h1
         (fun x hx => (h2 x).mpr hx) (fun x hx _ => (h2 x).mp hx), hne, h2⟩
     | other => simp only [PTree.sem] at h
-  refine ⟨?_, ?_, ?_⟩
+  refine ⟨?_, ?_, ?_, ?_⟩
   · intro s hne hp hs
     obtain ⟨s0, hs0, hag⟩ := hp
     simp only [PTree.labels] at hag
@@ -156,7 +146,10 @@ theorem node_congr_rel (F : List (List String)) (hF : ∀ s0 ∈ F, "" ∉ s0) (
     exact key [] (by simp) (Or.inl rfl) hs
   · intro x hx
     simp only [PTree.labels] at hx ⊢
-    exact labelsL_rel_sub cs cs' (hg.imp fun h => h.lab) x hx
+    exact labelsL_rel_sub cs cs' (Rel2.imp (fun h => h.lab) hg) x hx
+  · intro h
+    simp only [PTree.labels] at h ⊢
+    exact (nd_rel cs cs' (Rel2.imp (fun h => ⟨h.lab, h.nd⟩) hg) h).1
 
 /-! ### the outcomes of the recursion -/
 
@@ -274,15 +267,15 @@ theorem semSome_select (s : List String) : ∀ (cover : List (List String)),
     · simp only [hp, Bool.false_eq_true, if_false]
       exact Or.inl (semSome_select s ps)
 
-theorem rebuild_good (F : List (List String)) (R : List String) (cover : List (List String))
-    (h : some cover ∈ weightedCover (projF F R) R) :
+theorem rebuild_good (F : List (List String)) (hFnd : ∀ s0 ∈ F, s0.Nodup) (R : List String)
+    (cover : List (List String)) (h : some cover ∈ weightedCover (projF F R) R) :
     Good F (.node .or (R.map PTree.leaf)) (.node .or (cover.map partTree)) := by
-  obtain ⟨c1, _, c3, c4⟩ := weightedCover_spec _ R cover h
+  obtain ⟨c1, c2, c3, c4⟩ := weightedCover_spec _ R cover h
   have hpR : ∀ p ∈ cover, ∀ y ∈ p, y ∈ R := by
     intro p hp y hy
     obtain ⟨s', _, rfl, _⟩ := mem_projF.mp (c1 p hp)
     exact (mem_interS.mp hy).2
-  refine ⟨?_, ?_, ?_⟩
+  refine ⟨?_, ?_, ?_, ?_⟩
   · intro s hne hp hs
     obtain ⟨s0, hs0, hag⟩ := hp
     simp only [PTree.labels, labelsL_leaves] at hag
@@ -372,6 +365,13 @@ theorem rebuild_good (F : List (List String)) (R : List String) (cover : List (L
     simp only [PTree.labels, labelsL_parts, labelsL_leaves] at hx ⊢
     obtain ⟨p, hp, hxp⟩ := List.mem_flatten.mp hx
     exact hpR p hp x hxp
+  · intro _
+    simp only [PTree.labels, labelsL_parts]
+    apply List.Nodup.sublist List.filter_sublist
+    apply flatten_nodup cover ?_ c2
+    intro p hp
+    obtain ⟨s0, hs0, rfl, _⟩ := mem_projF.mp (c1 p hp)
+    exact List.Nodup.sublist List.filter_sublist (hFnd s0 hs0)
 
 /-! ### the whole tree -/
 
@@ -407,14 +407,9 @@ theorem missingAnd_good (F : List (List String)) (hF : ∀ s0 ∈ F, "" ∉ s0) 
         (rel2_good_of_mem F fuel ih cs' cs'' hnd' (missingAndL_rel F fuel cs' cs'' hcs''))
     rcases hcase with rfl | ⟨rfl, uni, cover, rfl, hcov, rfl⟩
     · exact finish hnd
-    · refine (rebuild_good F uni cover hcov).trans (finish ?_)
-      obtain ⟨c1, c2, _, _⟩ := weightedCover_spec _ uni cover hcov
-      rw [labelsL_parts]
-      apply (NE_sublist (List.Sublist.refl _)).nodup
-      apply List.Nodup.sublist List.filter_sublist
-      apply flatten_nodup cover ?_ c2
-      intro p hp
-      obtain ⟨s0, hs0, rfl, _⟩ := mem_projF.mp (c1 p hp)
-      exact List.Nodup.sublist List.filter_sublist (hFnd s0 hs0)
+    · have hrb := rebuild_good F hFnd uni cover hcov
+      refine hrb.trans (finish ?_)
+      have := hrb.nd (by simpa only [PTree.labels] using hnd)
+      simpa only [PTree.labels] using this
 
 end O2P.Gate
